@@ -103,6 +103,9 @@ def parseBeh : Option String → Option Beh
   | some "nilpan" => some ⟨[], true, false⟩
   | some "okpanic" => some ⟨[true], true, false⟩
   | some "badval" => some ⟨[true], false, true⟩
+  | some "errpanic" => some ⟨[false], true, false⟩
+  | some "errbad" => some ⟨[false, true], false, true⟩
+  | some "twicepanic" => some ⟨[true, true], true, false⟩
   | _ => none
 
 /-- `d:<hex type id>=<hex value|err>` hints: what the serializer makes of the payload per declared type -/
@@ -131,6 +134,14 @@ def hintDecoderX (ws : List String) : DecoderX :=
   let hints := parseHints ws
   let pans := parsePanicHints ws
   fun tid d => if pans.contains tid then .panics else Decoder.lift (hintDecoder hints) tid d
+
+/-- `cb=0` no completion function, `cb=1` a plain one, `cb=2` a picky one of the harness's own (panics, before
+delivering anything, on the value the "bad" scripts complete with — like the dispatcher's closure does in `Response`) -/
+def parseCb (ws : List String) : Cb :=
+  match kvNat ws "cb" with
+  | some 1 => some false
+  | some 2 => some true
+  | _ => none
 
 def parseCtx (ws : List String) : CtxArg :=
   match kv ws "ctxt" with
@@ -321,14 +332,12 @@ def step (s : St) (line : String) : St × String :=
       match (kvNat ws "col").bind s'.store, kvHex ws "route", kvHex ws "data", parseBeh (kv ws "beh"), kv ws "ser" with
       | some (_, st), some route, some data, some beh, some ser =>
         let dec : Option DecoderX := if ser == "nil" then none else some (hintDecoderX ws)
-        let hasCb := kvNat ws "cb" == some 1
-        (s', showExec (callWithSerializeX st.built dec route (parseCtx ws) data (if hasCb then some false else none) beh) "")
+        (s', showExec (callWithSerializeX st.built dec route (parseCtx ws) data (parseCb ws) beh) "")
       | _, _, _, _, _ => (s', "bad-op")
     | some "call" =>
       match (kvNat ws "col").bind s'.store, kvHex ws "route", parseBeh (kv ws "beh") with
       | some (_, st), some route, some beh =>
-        let hasCb := kvNat ws "cb" == some 1
-        (s', showExec (callX st.built route (parseCtx ws) (parseArg ws) (if hasCb then some false else none) beh) "")
+        (s', showExec (callX st.built route (parseCtx ws) (parseArg ws) (parseCb ws) beh) "")
       | _, _, _ => (s', "bad-op")
     | some "disp" =>
       match kvHex ws "route", kvHex ws "data", parseBeh (kv ws "beh"), kvNat ws "reqid", kvHex ws "rc" with
@@ -400,11 +409,14 @@ def judgeCall (op : String) (o : Obs) (hasCb : Bool) (beh : Beh) (cbPanicsOnBad 
       if r != r' then s!"VIOLATION C13/wrong-handler-or-argtype expected {r} got {r'} :: {op}" else
       if !hasCb then (if o.comps.isEmpty then "ok" else "VIOLATION C13/notify-was-completed " ++ op)
       else if fs.any (· != "f:err" ++ sfx) then "VIOLATION C13/completed-without-error " ++ op
+      -- the framework's own completion ("panic in rpc") is due iff the handler's frame panicked and NO completion of the
+      -- handler went through before: a handler that completed and THEN panicked must not be completed a second time (D23,
+      -- fixed in /repo 7b326e6; Props.exec_panic_completion_iff_not_completed), and one whose completion function choked
+      -- (nothing went through) must still get the error
+      else if !hs.isEmpty && !fs.isEmpty then
+        "VIOLATION C13/callback-completed-twice the framework completed on top of the handler's own completion :: " ++ op
       else if fs.length > (if handlerPanics then 1 else 0) then "VIOLATION C13/callback-completed-twice " ++ op
       else if handlerPanics && fs.isEmpty && hs.isEmpty then "VIOLATION C13/callback-never-completed (panicking handler) " ++ op
-      -- a handler that completed and THEN panicked: SafeCall completes a second time (Props.panicking_handler_completes_once_full_fails);
-      -- undisciplined handler, outside the statement as it is read here - reported, not alarmed on
-      else if handlerPanics && !hs.isEmpty && !fs.isEmpty then "ok outside-statement handler-completed-then-panicked-completed-again"
       else "ok"
     | some r, _ => s!"VIOLATION C13/wrong-handler-or-argtype expected once {r} :: {op}"
     | none, _ =>
@@ -483,7 +495,8 @@ def specStep (s : St) (line : String) : St × String :=
       | some "csz" =>
         match (kvNat ws "col").bind s'.store, kvHex ws "route", parseBeh (kv ws "beh"), kv ws "ser" with
         | some (_, st), some route, some beh, some ser =>
-          let hasCb := kvNat ws "cb" == some 1
+          let hasCb := (parseCb ws).isSome
+          let picky := parseCb ws == some true
           let ctx := parseCtx ws
           let target := specRoute st.snapFmt st.snap route
           let dec := hintDecoder (parseHints ws)
@@ -498,12 +511,13 @@ def specStep (s : St) (line : String) : St × String :=
           -- and is reported, not alarmed on.  Anything else than a panic is judged like an undecodable payload.
           let serPanics := ser != "nil" && (target.map fun h => (parsePanicHints ws).contains h.argT.id).getD false
           if serPanics && o.panic && o.ran.isEmpty && o.comps.isEmpty then (s', "ok outside-statement serializer-panics")
-          else (s', judgeCall op o hasCb beh false target expRan decoded.isSome "")
+          else (s', judgeCall op o hasCb beh picky target expRan decoded.isSome "")
         | _, _, _, _ => (s', "bad-op")
       | some "call" =>
         match (kvNat ws "col").bind s'.store, kvHex ws "route", parseBeh (kv ws "beh") with
         | some (_, st), some route, some beh =>
-          let hasCb := kvNat ws "cb" == some 1
+          let hasCb := (parseCb ws).isSome
+          let picky := parseCb ws == some true
           let ctx := parseCtx ws
           let arg := parseArg ws
           let target := specRoute st.snapFmt st.snap route
@@ -512,7 +526,7 @@ def specStep (s : St) (line : String) : St × String :=
             | some h =>
               if ctxOK h ctx && argOK h && cbOK h && (h.isRequest || !hasCb) then some (showRan h (ctx != .nil) arg) else none
             | none => none
-          (s', judgeCall op o hasCb beh false target expRan true "")
+          (s', judgeCall op o hasCb beh picky target expRan true "")
         | _, _, _ => (s', "bad-op")
       | some "disp" =>
         match kvHex ws "route", parseBeh (kv ws "beh"), kvNat ws "reqid", kvHex ws "rc" with
